@@ -162,7 +162,7 @@ Theorem exec_same s s' o :
   same s s' -> same_res (exec s o) (exec s' o).
 Proof.
   intros Hs.
-  destruct o as [t|i|i t|i t|t|i f| |v|f|fsv r|ov|r|m|m| ]; cbn [exec_op].
+  destruct o as [t|i|i|i t|i t|t|i f| |v|f|fsv r|ov|r|m|m| ]; cbn [exec_op].
   - (* ReadRecord *) cbn [same_res]. split; [apply same_set_line; exact Hs|reflexivity].
   - (* GetField *)
     pose proof (eval_idx_same s s' i Hs) as Hi.
@@ -173,6 +173,15 @@ Proof.
     destruct (get_field rx all_matches a k) as [[[a1 f1] t1]| | |], (get_field rx all_matches b k) as [[[b1 f2] t2]| | |];
       cbn [rbind same_res]; try contradiction; auto.
     destruct Hg as (H1 & -> & _). split; [exact H1|reflexivity].
+  - (* TypeOf *)
+    pose proof (eval_idx_same s s' i Hs) as Hi.
+    destruct (eval_idx rx all_matches s i) as [[a k]| | |], (eval_idx rx all_matches s' i) as [[b k']| | |];
+      cbn [rbind same_res]; try contradiction; auto.
+    destruct Hi as [Hab <-].
+    pose proof (get_field_same a b k Hab) as Hg.
+    destruct (get_field rx all_matches a k) as [[[a1 f1] t1]| | |], (get_field rx all_matches b k) as [[[b1 f2] t2]| | |];
+      cbn [rbind same_res]; try contradiction; auto.
+    destruct Hg as (H1 & -> & ->). split; [exact H1|reflexivity].
   - (* SetField *)
     pose proof (eval_idx_same s s' i Hs) as Hi.
     destruct (eval_idx rx all_matches s i) as [[a k]| | |], (eval_idx rx all_matches s' i) as [[b k']| | |];
@@ -274,11 +283,31 @@ Qed.
 
 (* the reads *)
 Definition is_read_op (o : op) : bool :=
-  match o with GetField _ _ | GetNF _ | ViewAll _ => true | _ => false end.
+  match o with GetField _ _ | TypeOf _ _ | GetNF _ | ViewAll _ => true | _ => false end.
 
 Lemma read_same s o s' w : is_read_op o = true -> exec s o = Ok (s', w) -> same s' s.
 Proof.
-  intros Hr H. destruct o as [t|i|i t|i t|t|i f| |v|f|fsv r|ov|r|m|m| ]; try discriminate Hr; cbn [exec_op] in H.
+  intros Hr H. destruct o as [t|i|i|i t|i t|t|i f| |v|f|fsv r|ov|r|m|m| ]; try discriminate Hr; cbn [exec_op] in H.
+  - assert (forall a k, eval_idx rx all_matches s i = Ok (a, k) -> same a s) as Hidx.
+    { intros a k E. destruct i as [x|neg d]; cbn [eval_idx] in E.
+      - injection E as <- _. apply same_refl.
+      - destruct (ensure s) as [s1| | |] eqn:He; cbn [rbind] in E; try discriminate.
+        destruct (vnum (nf rx s1)); try discriminate. destruct (representable _); [|discriminate].
+        injection E as <- _. exact (same_ensure _ _ He). }
+    destruct (eval_idx rx all_matches s i) as [[a k]| | |] eqn:E0; cbn [rbind] in H; try discriminate.
+    pose proof (Hidx a k eq_refl) as Ha.
+    destruct (get_field rx all_matches a k) as [[[a1 f1] t1]| | |] eqn:E1; cbn [rbind] in H; try discriminate.
+    injection H as <- _.
+    assert (same a1 a) as H1.
+    { unfold get_field in E1. destruct (k =? 0).
+      - injection E1 as <- _ _. apply same_refl.
+      - destruct (ensure a) as [a2| | |] eqn:He; cbn [rbind] in E1; try discriminate.
+        pose proof (same_ensure _ _ He) as Hsame.
+        repeat match type of E1 with
+               | (if ?c then _ else _) = _ => destruct c
+               | rbind ?r _ = _ => destruct r; cbn [rbind] in E1; try discriminate
+               end; injection E1 as <- _ _; exact Hsame. }
+    destruct H1 as [C1 E1']. destruct Ha as [C2 E2]. split; congruence.
   - assert (forall a k, eval_idx rx all_matches s i = Ok (a, k) -> same a s) as Hidx.
     { intros a k E. destruct i as [x|neg d]; cbn [eval_idx] in E.
       - injection E as <- _. apply same_refl.
